@@ -150,7 +150,8 @@ class TightCoupler:
                 f"{val} supplied has type {type(val)} which is not supported in {self}. "
                 f"Supported types: {self._SUPPORTED_TYPES}"
             )
-        self._previousIterationValue = val
+        # keep a copy: an interface may update its coupling list/array in place and hand back the same object
+        self._previousIterationValue = copy.deepcopy(val)
 
     def isConverged(self, val: _SUPPORTED_TYPES) -> bool:
         """
